@@ -70,7 +70,7 @@ func C10(c *Ctx) error {
 				variants = []string{"top", "child", "repeated", "map", "two_fields"}
 			}
 			if src == "url_binding" {
-				variants = []string{"bad_path_int", "missing_required_query", "bad_path_range"}
+				variants = []string{"bad_path_int", "missing_required_query", "bad_path_range", "bad_query_int", "bad_query_bool"}
 			}
 			for _, variant := range variants {
 				for _, ct := range []string{"application/json", "application/x-protobuf"} {
@@ -94,6 +94,11 @@ func C10(c *Ctx) error {
 									url, ks.wantViol = "/e/g/abc?must=x", []string{"num"}
 								case "bad_path_range":
 									url, ks.wantViol = "/e/g/2147483648?must=x", []string{"num"}
+								case "bad_query_int":
+									// the violation names the FIELD (limit), not the wire name (page_size)
+									url, ks.wantViol = "/e/g/5?must=x&page_size=ten", []string{"limit"}
+								case "bad_query_bool":
+									url, ks.wantViol = "/e/g/5?must=x&archived=maybe", []string{"include_archived"}
 								default:
 									url, ks.wantViol = "/e/g/5", []string{"must"}
 								}
